@@ -221,7 +221,7 @@ pub fn probes(seed: u64, n: usize) -> Vec<Probe> {
 
 pub fn run(tier: Tier, seed: u64) -> i32 {
     let mut run = Run::new("C16", tier, seed, "exploration");
-    run.rule = "evaluation = one probe (`position X` + `go`) issued after a generated prefix of 1..60 commands in the same session of the real binary (other games with long move lists and repetitions, the probed game itself or truncations of it, zero-slice and timed searches, go chains, ucinewgame, both setoption forms, isready, unknown lines) and compared with a fresh process: zero-allowance probes must give the identical bestmove (also when repeated in the session); timed probes (5-40 ms) must report a sequence of (depth, nodes, score, first PV move) that is prefix-compatible with the fresh engine's 150 ms run. Pipelined variant: prefix (positions, go chains with plans <= 25 ms, the probed and related games, option line) and the zero-allowance probe (twice) written without waiting for any reply - one write, per line, or pieces that cut lines in two - and compared with the fresh engine's answer. Long sessions: the probed game searched once, then 253..258 / 509..514 (thorough: also about 1024, 4096 and 65536) zero-allowance searches of other positions written in one piece, then the timed and the zero-allowance probe - for state told apart by a small counter or generation number. Probes include repetition-sensitive roots (lost side to move behind one or two shuffle cycles) so that a leaked repetition record changes scores. Non-trivial = every probe after a non-empty prefix; distinct by (probe, prefix seed)".into();
+    run.rule = "evaluation = one probe (`position X` + `go`) issued after a generated prefix of 1..60 commands in the same session of the real binary (other games with long move lists and repetitions, the probed game itself or truncations of it, zero-slice and timed searches, go chains, ucinewgame, both setoption forms, isready, unknown lines) and compared with a fresh process: zero-allowance probes must give the identical bestmove (also when repeated in the session); timed probes (5-40 ms) must report a sequence of (depth, nodes, score, first PV move) that is prefix-compatible with the fresh engine's 150 ms run. Pipelined variant: prefix (positions, go chains with plans <= 25 ms, the probed and related games, option line) and the zero-allowance probe (twice) written without waiting for any reply - one write, per line, or pieces that cut lines in two - and compared with the fresh engine's answer. One session in eight runs under ptrace delay injection (threads held at channel operations, thread start and standard-output entry points). Long sessions: the probed game searched once, then 253..258 / 509..514 (thorough: also about 1024, 4096 and 65536) zero-allowance searches of other positions written in one piece, then the timed and the zero-allowance probe - for state told apart by a small counter or generation number. Probes include repetition-sensitive roots (lost side to move behind one or two shuffle cycles) so that a leaked repetition record changes scores. Non-trivial = every probe after a non-empty prefix; distinct by (probe, prefix seed)".into();
     run.assumptions = vec![
         "an info line printed by the detached search thread just after bestmove belongs to the go that started it; the driver drains for 5 ms and uses isready as the boundary before the next command".into(),
         "fresh-engine references are computed once per probe and reused".into(),
@@ -250,7 +250,16 @@ pub fn run(tier: Tier, seed: u64) -> i32 {
     let res = run_parallel(16, sessions, |sid| {
         let mut acc = Acc::new();
         let mut rng = Rng::stream(seed, 0xC16_0000 + sid as u64);
-        let mut s = match Sess::start(&plain, SpawnOpts::default(), false) {
+        // "all timings": one session in eight runs under ptrace delay injection (threads held at
+        // the channel operations, thread start and standard-output entry points) - what is
+        // reported must not depend on how the two threads happen to be scheduled
+        let mut opts = SpawnOpts::default();
+        if sid % 8 == 5 && bb::ptdelay_tool(&plain).is_some() {
+            opts.ptdelay = Some((*rng.pick(&[300u32, 1000]), seed.wrapping_mul(41).wrapping_add(sid as u64)));
+            opts.ptset = bb::PtSet::Both;
+            acc.feature("session_under_ptrace_delay_injection");
+        }
+        let mut s = match Sess::start(&plain, opts, false) {
             Ok(s) => s,
             Err(e) => {
                 acc.inconclusive.push(format!("session start failed: {}", e));
